@@ -67,7 +67,9 @@ uintptr_t metatype::generic::addref()
 void metatype::generic::unref()
 {
 	if (!_ref.lower()) {
-		delete this;
+		/* instance memory is allocated by malloc() */
+		this->~generic();
+		free(this);
 	}
 }
 
